@@ -128,6 +128,10 @@ def to_iter(v):
         return IterV(v.items())
     if isinstance(v, A.Enum) and v.adt == OPTION:
         return IterV(list(v.fields))
+    if isinstance(v, A.Struct) and v.adt.startswith("core::ops::range::Range") and "start" in v.fields and "end" in v.fields:
+        lo, hi = A.deref(v.fields["start"]), A.deref(v.fields["end"])
+        if isinstance(lo, int) and isinstance(hi, int):
+            return IterV(range(lo, hi + (1 if "Inclusive" in v.adt else 0)))
     raise A.Unsupported("iteration over %r" % (v,))
 
 
@@ -271,6 +275,8 @@ def intrinsics():
     # ---- Vec / slices / VecDeque
     I[VEC + "new"] = lambda ip, n, a: A.VecV([])
     I[VEC + "with_capacity"] = lambda ip, n, a: A.VecV([])
+    I["alloc::vec::Vec::<T>::new"] = lambda ip, n, a: A.VecV([])
+    I["alloc::vec::Vec::<T>::with_capacity"] = lambda ip, n, a: A.VecV([])
     I[VEC + "push"] = lambda ip, n, a: (d(a[0]).items.append(a[1]), unit())[1]
     I[VEC + "pop"] = lambda ip, n, a: some(d(a[0]).items.pop()) if d(a[0]).items else none()
     I[VEC + "len"] = lambda ip, n, a: len(d(a[0]).items)
@@ -401,6 +407,34 @@ def intrinsics():
         return v
     I["core::ops::try_trait::FromResidual::from_residual"] = from_residual
     I["core::ops::try_trait::Try::from_output"] = lambda ip, n, a: ok(a[0])
+
+    # ---- integers
+    def _ints(a):
+        xs = [d(x) for x in a]
+        if all(isinstance(x, int) and not isinstance(x, bool) for x in xs):
+            return xs
+        raise A.Unsupported("integer operation on %r" % (xs,))
+    I["core::cmp::Ord::max"] = lambda ip, n, a: max(_ints(a))
+    I["core::cmp::Ord::min"] = lambda ip, n, a: min(_ints(a))
+    for t in ("usize", "u64", "u32", "i64"):
+        I["core::num::<impl %s>::saturating_sub" % t] = lambda ip, n, a: max(0, _ints(a)[0] - _ints(a)[1])
+        I["core::num::<impl %s>::saturating_add" % t] = lambda ip, n, a: _ints(a)[0] + _ints(a)[1]
+        I["core::num::<impl %s>::checked_add" % t] = lambda ip, n, a: some(_ints(a)[0] + _ints(a)[1])
+    I[IT + "max"] = lambda ip, n, a: (lambda l: some(max(_ints(l))) if l else none())(list(to_iter(a[0])))
+    I[IT + "min"] = lambda ip, n, a: (lambda l: some(min(_ints(l))) if l else none())(list(to_iter(a[0])))
+    I[IT + "sum"] = lambda ip, n, a: sum(_ints(list(to_iter(a[0]))))
+
+    def try_from_int(ip, n, a):
+        x = d(a[0])
+        if isinstance(x, int) and not isinstance(x, bool):
+            ty = ip.C.S(n.get("ty")) or ""
+            unsigned = ty.startswith("core::result::Result<u")
+            if unsigned and x < 0:
+                return err(A.Sym("TryFromIntError"))
+            return ok(x)
+        raise A.Unsupported("try_from on %r" % (x,))
+    I["core::convert::TryFrom::try_from"] = try_from_int
+    I["core::convert::TryInto::try_into"] = try_from_int
 
     # ---- strings (names are modelled as Python str)
     I["alloc::string::ToString::to_string"] = lambda ip, n, a: d(a[0])
